@@ -289,7 +289,7 @@ class Rewriter:
 
     def rangefor(self, t):
         """R13: `for ([const] T[&] x : cont) body` -> index loop; uses of x in the body -> cont.data[vf_i_x]."""
-        pat = re.compile(r'\bfor\s*\(\s*(const\s+)?[\w:<>]+\s*([&*]*)\s*(\w+)\s*:\s*([\w.>\-*()]+?)\s*\)')
+        pat = re.compile(r'\bfor\s*\(\s*(const\s+)?[\w:<>]+\s*([&*]*)\s*(\w+)\s*:\s*([\w.>\-*()\[\]]+?)\s*\)(?=\s*[^\s.\[)])')
         while True:
             m = pat.search(t)
             if not m:
@@ -302,17 +302,7 @@ class Rewriter:
             k = m.end()
             while t[k].isspace():
                 k += 1
-            if t[k] == '{':
-                e = match_close(strip_comments_keep_layout(t), k, '{', '}') + 1
-            else:
-                depth, e = 0, k
-                while not (t[e] == ';' and depth == 0):
-                    if t[e] in '([{':
-                        depth += 1
-                    elif t[e] in ')]}':
-                        depth -= 1
-                    e += 1
-                e += 1
+            e = stmt_end(strip_comments_keep_layout(t), k)
             hdr = 'for (size_t %s = 0; %s < %s.size; ++%s)' % (idx, idx, cont, idx)
             if byref:
                 # reference (or const) loop variable: an alias of the element
@@ -360,6 +350,39 @@ class Rewriter:
             t = self.sub('R6.selfcall', r'(?<![\w.>:])' + nme + r'\s*\(\s*\)', nme + '(' + selfname + ')', t)
             t = self.sub('R6.selfcall', r'(?<![\w.>:])' + nme + r'\s*\((?!' + selfname + r'\s*[,)])', nme + '(' + selfname + ', ', t)
         return t
+
+
+def stmt_end(m, k):
+    """Index just past the C statement starting at m[k] (m: comment-masked text)."""
+    n = len(m)
+    while k < n and m[k].isspace():
+        k += 1
+    if m[k] == '{':
+        return match_close(m, k, '{', '}') + 1
+    mm = re.match(r'(if|for|while|switch)\b\s*\(', m[k:])
+    if mm:
+        po = k + mm.end() - 1
+        pc = match_close(m, po, '(', ')')
+        e = stmt_end(m, pc + 1)
+        if mm.group(1) == 'if':
+            j = e
+            while j < n and m[j].isspace():
+                j += 1
+            if m[j:j + 4] == 'else' and not (m[j + 4].isalnum() or m[j + 4] == '_'):
+                e = stmt_end(m, j + 4)
+        return e
+    if m[k:k + 2] == 'do' and not (m[k + 2].isalnum() or m[k + 2] == '_'):
+        e = stmt_end(m, k + 2)
+        j = m.index(';', e)
+        return j + 1
+    depth, e = 0, k
+    while not (m[e] == ';' and depth == 0):
+        if m[e] in '([{':
+            depth += 1
+        elif m[e] in ')]}':
+            depth -= 1
+        e += 1
+    return e + 1
 
 
 def insert_loop_contracts(body, loops, masked=None):
